@@ -116,16 +116,19 @@ Fixpoint trim_left (s : str) : str :=
 (** strings.TrimSpace (ASCII) *)
 Definition trim_space (s : str) : str := rev (trim_left (rev (trim_left s))).
 
-(** the text [check] (migrate.go) writes after CHECK *)
-Definition check_sql (e : str) : str :=
+(** a text that is one parenthesised expression: its first paren closes at its last byte *)
+Definition is_wrapped (s : str) : bool := str_eqb (may_wrap s) s.
+
+(** the text [check] (migrate.go) writes after CHECK: sqlx.MayWrap(strings.TrimSpace(c.Expr))
+    (before the fix "sqlite planner wraps a CHECK expression like (a) AND (b)" it tested the first and
+    the last byte only: [check_sql_old], kept for the theorem about the old code) *)
+Definition check_sql (e : str) : str := may_wrap (trim_space e).
+Definition check_sql_old (e : str) : str :=
   let t := trim_space e in
   match t with
   | a :: _ => if N.eqb a ch_lparen && N.eqb (last t 0%N) ch_rparen then e else ch_lparen :: t ++ [ch_rparen]
   | [] => [ch_lparen; ch_rparen]
   end.
-
-(** a text that is one parenthesised expression: its first paren closes at its last byte *)
-Definition is_wrapped (s : str) : bool := str_eqb (may_wrap s) s.
 
 Definition SQLITE_ : str := [115;113;108;105;116;101;95]%N.       (* "sqlite_" *)
 (** names beginning with "sqlite_" (any case) are reserved *)
